@@ -6,6 +6,10 @@ PROP = dict(
         level_text="(filled in below)",
         level_note="trusts the reference codec in harness/c01_refcodec.h (itself cross-checked: reference decode of every produced frame == message), gcc ASan+UBSan",
         legs=[dict(name="c01_codec", src=["c01_codec.c"], libs=["mptcore"], batch=256, timeout=30,
+                   floors={}),
+              dict(name="c01_cxx", src=["c01_cxx.cpp"], libs=["mpt++", "mptio", "mptplot", "mptcore"], batch=256, timeout=30,
+                   floors={}),
+              dict(name="c01_python", src=["c01_python.c"], libs=["mptcore"], batch=64, timeout=30,
                    floors={})],
         rule="(filled in below)",
         assumptions=SAN_BASE,
